@@ -95,6 +95,10 @@ type srcSpec struct {
 	obj   *unstructured.Unstructured
 	stale *unstructured.Unstructured
 	where int // 0 cache(current) 1 cache(current)+cluster(stale) 2 cache(not current, stale)+cluster 3 cluster 4 nowhere 5 cache(not current) only
+	// verDecoy (Deployments read from the cluster, referenced by apiVersion apps/v1 only): the other served
+	// versions of the resource hold DIFFERENT content, so a lookup that ignores the version of the
+	// reference reads the wrong object
+	verDecoy bool
 }
 
 type mutRunner struct {
@@ -199,11 +203,21 @@ func (mr *mutRunner) env(srcs []srcSpec, withCache bool) (*mutator.ApplyTimeMuta
 	// The static test mapper resolves a version-less apps/Deployment reference
 	// to apps/v1beta1 and the fake tracker is keyed by version (a real API
 	// server serves every version): store the object under the older versions too.
+	decoy := map[object.ObjMetadata]*unstructured.Unstructured{}
+	for _, s := range srcs {
+		if s.verDecoy && (s.where == 2 || s.where == 3) {
+			decoy[object.UnstructuredToObjMetadata(s.obj)] = s.stale
+		}
+	}
 	for _, o := range clusterObjs {
 		u := o.(*unstructured.Unstructured)
 		if u.GetKind() == "Deployment" {
+			other := u
+			if d, ok := decoy[object.UnstructuredToObjMetadata(u)]; ok {
+				other = d
+			}
 			for _, ver := range []string{"v1beta1", "v1beta2"} {
-				_ = fdc.Tracker().Create(schema.GroupVersionResource{Group: "apps", Version: ver, Resource: "deployments"}, u.DeepCopy(), u.GetNamespace())
+				_ = fdc.Tracker().Create(schema.GroupVersionResource{Group: "apps", Version: ver, Resource: "deployments"}, other.DeepCopy(), u.GetNamespace())
 			}
 		}
 	}
@@ -484,7 +498,11 @@ func (mr *mutRunner) run(s *caseSink, sc mutScenario) {
 	}
 	var whereTexts []string
 	for _, src := range sc.srcs {
-		whereTexts = append(whereTexts, fmt.Sprintf("%s@%d", src.ref.text(), src.where))
+		vd := ""
+		if src.verDecoy {
+			vd = "+other-versions-differ"
+		}
+		whereTexts = append(whereTexts, fmt.Sprintf("%s@%d%s", src.ref.text(), src.where, vd))
 	}
 	errText := ""
 	if err != nil {
@@ -504,6 +522,9 @@ func (mr *mutRunner) run(s *caseSink, sc mutScenario) {
 	s.sum.Count(fmt.Sprintf("mut-subs:%d", len(sc.subs)))
 	for _, src := range sc.srcs {
 		s.sum.Count(fmt.Sprintf("mut-source-where:%d", src.where))
+		if src.verDecoy {
+			s.sum.Count("mut-source-other-versions-differ")
+		}
 	}
 }
 
@@ -571,6 +592,16 @@ func (mr *mutRunner) corpus(s *caseSink) {
 		mr.run(s, mutScenario{self: self, payload: payload(), kind: "corpus-self-implicit", withCache: true,
 			subs: []subSpec{{src: refSpec{ki: depKI, name: "tgt", ns: ""}, spath: modelled(keyPath("spec", "n"), false), tpath: modelled(keyPath("spec", "rep"), false), scenario: "self-implicit"}},
 			srcs: []srcSpec{{ref: self, obj: live, stale: staleObj(live), where: 0}}})
+	}
+	// a reference by apiVersion reads THAT version of the resource: the other served versions hold other content
+	{
+		depRef := refSpec{ki: depKI, name: "dsrc", ns: "test"}
+		o := mkObj(depRef, srcPayload)
+		for _, where := range []int{2, 3} {
+			mr.run(s, mutScenario{self: self, payload: payload(), kind: "corpus-version-of-reference", withCache: true,
+				subs: []subSpec{{src: depRef, spath: modelled(keyPath("status", "ip"), false), tpath: modelled(keyPath("spec", "rep"), false), scenario: "version-of-reference"}},
+				srcs: []srcSpec{{ref: depRef, obj: o, stale: staleObj(o), where: where, verDecoy: true}}})
+		}
 	}
 	// annotation forms
 	mr.run(s, mutScenario{self: self, payload: payload(), annotMode: 1, srcs: src(0), withCache: true, kind: "corpus-no-annotation"})
@@ -641,7 +672,8 @@ func (mr *mutRunner) randomCase(s *caseSink, g *gen) {
 		st["port"] = int64(8080)
 		o := mkObj(ref, map[string]interface{}{"status": st})
 		where := []int{0, 0, 1, 2, 3, 3}[r.Intn(6)]
-		srcs = append(srcs, srcSpec{ref: ref, obj: o, stale: staleObj(o), where: where})
+		srcs = append(srcs, srcSpec{ref: ref, obj: o, stale: staleObj(o), where: where,
+			verDecoy: ki.kind == "Deployment" && (where == 2 || where == 3) && r.Intn(2) == 0})
 	}
 	sc := mutScenario{self: self, payload: payload, srcs: srcs, withCache: r.Intn(8) != 0}
 	switch r.Intn(40) {
@@ -662,6 +694,9 @@ func (mr *mutRunner) randomCase(s *caseSink, g *gen) {
 		src := &srcs[si]
 		sub := subSpec{src: src.ref}
 		sub.src.useGroup = r.Intn(2) == 0
+		if src.verDecoy {
+			sub.src.useGroup = false // by apiVersion apps/v1: that version must be the one that is read
+		}
 		if src.ref.ki.namespaced && src.ref.ns == self.ns && r.Intn(2) == 0 {
 			sub.src.ns = "" // implicit namespace
 		}
